@@ -105,7 +105,7 @@ class Prop(object):
         """-> (blob, known keys dict, description).  shape: dict(nuid, uat, nsub, nself, third, revoke_uid, extras, same_time, trust, secret, prim)"""
         prim = K.raw(shape.get('prim', 'ed25519a'), K.T0)
         other = K.raw('ed25519b', K.T0)
-        subs = [K.raw(n, K.T0) for n in ['cv25519a', 'ecdsa_p256b', 'rsa1024a'][:shape['nsub']]]
+        subs = [K.raw(n, K.T0) for n in shape.get('subnames', ['cv25519a', 'ecdsa_p256b', 'rsa1024a'])[:shape['nsub']]]
         known = {rkeys.keyid(x): x for x in [prim, other] + subs}
         pbody = rkeys.public_body(prim)
         t = [K.T0 + 100]
@@ -137,10 +137,16 @@ class Prop(object):
             out += sig(other, 0x1F, {'key': pbody}, wire.subpacket(4, b'\x00')) + trust
         if 'keyrev' in ex:
             out += sig(prim, 0x20, {'key': pbody}, wire.subpacket(29, b'\x03retired')) + trust
-        names = ['First User <first@example.org>', 'Second Üser (zwei) <second@example.org>', 'third'][:shape['nuid']]
-        ids = [('uid', n.encode('utf-8')) for n in names]
+        # (the third identity is not valid UTF-8: older producers wrote Latin-1)
+        names = ['First User <first@example.org>'.encode(), 'Second Üser (zwei) <second@example.org>'.encode('utf-8'), 'Jos\xe9 Latin <jose@example.es>'.encode('latin-1')][:shape['nuid']]
+        ids = [('uid', n) for n in names]
         if shape.get('uat'):
-            ids.insert(1, ('uat', uat_hashdata(JPEG)))
+            if shape.get('bigimage'):
+                # a photo of 9 kB: its subpacket length has two legal encodings (two-octet up to 16319, five-octet); the packet body is what is certified
+                img = b'\x10\x00\x01\x01' + bytes(12) + JPEG[:-2] + bytes(i * 7 & 0xFF for i in range(9000)) + JPEG[-2:]
+                ids.insert(1, ('uat', wire.sub_len_encode(len(img) + 1, shape['bigimage']) + b'\x01' + img))
+            else:
+                ids.insert(1, ('uat', uat_hashdata(JPEG)))
         for i, (kind, data) in enumerate(ids):
             out += wire.packet(13 if kind == 'uid' else 17, data) + trust
             subj = {'key': pbody, kind: data}
@@ -182,7 +188,11 @@ class Prop(object):
             if 'subrev' in extras and case['nsub'] == 0:
                 extras = ('direct',)
             shape = dict(nuid=case['nuid'], nsub=case['nsub'], secret=case['secret'], uat=uat, nself=nself, third=third, revoke_uid=revoke_uid, extras=extras,
-                         same_time=same_time, trust=trust, prim='ed25519a' if idx % 3 else 'ecdsa_p256a', nonminimal=(idx % 4 == 1))
+                         same_time=same_time, trust=trust, prim=('ed25519a' if idx % 3 else 'ecdsa_p256a') if idx % 5 else 'ecdsa_p256_x0', nonminimal=(idx % 4 == 1),
+                         bigimage=(None, 2, None, 5)[idx % 4] if uat else None)
+            if idx % 5 == 0:
+                # key material whose point coordinates have leading zero octets (fixed-width fields that an integer round trip would shorten)
+                shape['subnames'] = ['ecdh_p256_x0', 'ecdsa_p521_x0']
             r.states += 1
             blob, known = self.write_key(shape)
             probs = []
